@@ -740,6 +740,149 @@ pub fn kvs_soak(seed: u64, worker: usize, slot: &Slot) {
     let _ = std::fs::remove_dir_all(&dir);
 }
 
+/// C01 / C03 rider in tree mode: ingesting threads that own disjoint key sets ingest small tables
+/// (several versions and tombstones per key, timestamps increasing per owner, interleaved between
+/// owners) while 1-3 compaction threads run freely; after every ingest the owner reads its keys
+/// back; every key and one full scan are compared at quiescence.
+pub fn tree_soak(seed: u64, worker: usize, slot: &Slot) {
+    let mut rng = Rng::new(seed);
+    let dir = fresh_dir(worker, "tsoak");
+    let o: Vec<(&str, String)> = vec![
+        ("--l0-mandatory-compaction-threshold-files", rng.pick(&[1u64, 2, 4]).to_string()),
+        ("--sst-cache-bytes", rng.pick(&[0u64, 65536]).to_string()),
+        ("--mani-log-rollover-ratio", rng.pick(&[0u64, 1, 2]).to_string()),
+    ];
+    let tree = Arc::new(LsmTree::open(options(&dir.join("db"), &o)).unwrap_or_else(|e| violation("open-error", format!("{e}"))));
+    let n_clients = rng.range(1, 3) as usize;
+    let nkeys = rng.range(2, 5) as usize;
+    // plans[c] = list of (table path, state of c's keys after ingesting it)
+    let mut plans: Vec<Vec<(PathBuf, BTreeMap<Vec<u8>, Option<u64>>)>> = vec![Vec::new(); n_clients];
+    let mut states: Vec<BTreeMap<Vec<u8>, Option<u64>>> = vec![BTreeMap::new(); n_clients];
+    let mut ts = 0u64;
+    let rounds = rng.range(3, 10);
+    for f in 0..rounds {
+        for c in 0..n_clients {
+            if rng.chance(1, 4) {
+                continue;
+            }
+            let path = dir.join(format!("in-{c}-{f}.sst"));
+            let mut b = SstBuilder::new(SstOptions::default(), &path).unwrap_or_else(|e| violation("builder-error", format!("{e}")));
+            let mut keys: Vec<usize> = (0..nkeys).filter(|_| rng.chance(1, 2)).collect();
+            if keys.is_empty() {
+                keys.push(rng.usize_below(nkeys));
+            }
+            for k in keys {
+                let kb = vec![b'a' + c as u8, b'0' + k as u8];
+                // one or two versions of the key in this table, newest first in the file
+                let versions = rng.range(1, 2);
+                let base = ts;
+                ts += versions;
+                for v in (1..=versions).rev() {
+                    let t = base + v;
+                    if rng.chance(1, 5) {
+                        b.del(&kb, t).unwrap_or_else(|e| violation("builder-error", format!("{e}")));
+                        if v == versions {
+                            states[c].insert(kb.clone(), None);
+                        }
+                    } else {
+                        b.put(&kb, t, &value(t, 30)).unwrap_or_else(|e| violation("builder-error", format!("{e}")));
+                        if v == versions {
+                            states[c].insert(kb.clone(), Some(t));
+                        }
+                    }
+                }
+            }
+            drop(b.seal().unwrap_or_else(|e| violation("builder-error", format!("{e}"))));
+            plans[c].push((path, states[c].clone()));
+        }
+    }
+    let compactors = rng.range(1, 3) as usize;
+    let mut daemons = Vec::new();
+    for _ in 0..compactors {
+        let t = Arc::clone(&tree);
+        daemons.push(thread::spawn(move || t.compaction_thread().map_err(|e| format!("{e}"))));
+    }
+    let reads = Arc::new(AtomicU64::new(0));
+    let mut handles = Vec::new();
+    for plan in plans {
+        let t = Arc::clone(&tree);
+        let reads = Arc::clone(&reads);
+        handles.push(thread::spawn(move || {
+            for (path, state) in plan {
+                t.ingest(&path).unwrap_or_else(|e| violation("ingest-error", format!("{e}")));
+                for (k, want) in state.iter() {
+                    let mut tomb = false;
+                    let got = t.load(k, &mut tomb).unwrap_or_else(|e| violation("read-error", format!("{e}")));
+                    reads.fetch_add(1, Ordering::SeqCst);
+                    if got.as_deref().map(value_id) != *want {
+                        violation(
+                            "owner-read-differs-from-own-last-ingest",
+                            format!("key {:?}: read {:?}, newest ingested version {:?}", String::from_utf8_lossy(k), got.as_deref().map(value_id), want),
+                        );
+                    }
+                }
+            }
+        }));
+    }
+    for h in handles {
+        if h.join().is_err() {
+            violation("client-panicked", "an ingesting thread panicked".into());
+        }
+    }
+    let work = tree.verif().work_done();
+    tree.verif_request_stop();
+    for d in daemons {
+        match d.join() {
+            Ok(Ok(())) => {}
+            Ok(Err(e)) => violation("daemon-returned-error", e),
+            Err(_) => violation("daemon-panicked", "compaction thread panicked".into()),
+        }
+    }
+    let mut finals: BTreeMap<Vec<u8>, Option<u64>> = BTreeMap::new();
+    for st in states {
+        finals.extend(st);
+    }
+    for (k, want) in finals.iter() {
+        let mut tomb = false;
+        let got = tree.load(k, &mut tomb).unwrap_or_else(|e| violation("read-error-at-end", format!("{e}")));
+        if got.as_deref().map(value_id) != *want {
+            violation("final-read-differs-from-newest-version", format!("key {:?}: read {:?}, newest version {:?}", String::from_utf8_lossy(k), got.as_deref().map(value_id), want));
+        }
+    }
+    {
+        let lo: Bound<Vec<u8>> = Bound::Unbounded;
+        let hi: Bound<Vec<u8>> = Bound::Unbounded;
+        let mut c = tree.range_scan(&lo, &hi).unwrap_or_else(|e| violation("scan-error-at-end", format!("{e}")));
+        c.seek_to_first().unwrap_or_else(|e| violation("scan-error-at-end", format!("{e}")));
+        let mut got = Vec::new();
+        loop {
+            c.next().unwrap_or_else(|e| violation("scan-error-at-end", format!("{e}")));
+            match c.key_value() {
+                Some(kv) => {
+                    if let Some(v) = kv.value {
+                        got.push((kv.key.to_vec(), value_id(v)));
+                    }
+                }
+                None => break,
+            }
+        }
+        let want: Vec<(Vec<u8>, u64)> = finals.iter().filter_map(|(k, v)| v.map(|v| (k.clone(), v))).collect();
+        if got != want {
+            violation("final-scan-differs-from-newest-versions", format!("scan {:?}, state {:?}", short_ids(&got), short_ids(&want)));
+        }
+    }
+    let mut r = slot.lock().unwrap();
+    r.order_hash = rng::mix(&[seed, work, reads.load(Ordering::SeqCst)]);
+    r.nontrivial = work > 0;
+    r.steps = work;
+    *r.probes.entry("tree_soak_owner_reads_under_background_work".into()).or_insert(0) += reads.load(Ordering::SeqCst);
+    *r.probes.entry("tree_soak_background_work_units".into()).or_insert(0) += work;
+    r.sample = Some(serde_json::json!({"clients": n_clients, "keys_per_client": nkeys, "rounds": rounds, "compaction_threads": compactors, "options": o.iter().map(|(k, v)| format!("{k}={v}")).collect::<Vec<_>>()}));
+    drop(r);
+    drop(tree);
+    let _ = std::fs::remove_dir_all(&dir);
+}
+
 fn short_ids(l: &[(Vec<u8>, u64)]) -> Vec<(String, u64)> {
     l.iter().map(|(k, v)| (String::from_utf8_lossy(k).to_string(), *v)).collect()
 }
